@@ -197,6 +197,12 @@ class StatisticsEndpoint(EndpointListener, Endpoint):
         except AttributeError:
             return object.__getattribute__(self.endpoint, item)
 
+    def remove_listener(self, listener: EndpointListener) -> None:
+        """
+        Forward directly to the underlying endpoint (the inherited implementation would rebind the lists on this decorator).
+        """
+        self.endpoint.remove_listener(listener)
+
     def assert_open(self) -> None:
         """
         Forward directly to the underlying endpoint.
